@@ -3,12 +3,16 @@ package main
 import (
 	"fmt"
 	"math"
+	"runtime"
 	"strconv"
+	"strings"
 	"sync"
+	"sync/atomic"
 	"time"
 
 	tally "github.com/uber-go/tally/v4"
 	"github.com/uber-go/tally/v4/m3"
+	m3thrift "github.com/uber-go/tally/v4/m3/thrift/v2"
 
 	"verifharness/mon"
 )
@@ -16,6 +20,10 @@ import (
 func init() { register("C13", runC13) }
 
 func runC13(c *mon.Ctx) {
+	if flagMode == "scope" {
+		c.Cases(func(i int, r *mon.Rand) { c13Scope(c, r) })
+		return
+	}
 	c.Cases(func(i int, r *mon.Rand) { c13Life(c, r) })
 }
 
@@ -352,5 +360,229 @@ func c13Life(c *mon.Ctx, r *mon.Rand) {
 			}
 		}
 		c.Sample(s)
+	}
+}
+
+// c13Scope: end to end - a tally scope tree backed by the real M3 reporter,
+// concurrent recorders, ticker and manual passes, root Close; the oracle is at
+// the wire: per identity, decoded counter values add up to the increments,
+// the last decoded gauge value is the last update, timers arrive as the exact
+// multiset, histogram samples add up per bucket id.
+func c13Scope(c *mon.Ctx, r *mon.Rand) {
+	proto := m3.Compact
+	if r.Bool() {
+		proto = m3.Binary
+	}
+	opts := m3.Options{Service: "svc", Env: "test", Protocol: proto, MaxQueueSize: []int{4, 64, 4096}[r.Intn(3)]}
+	if r.Bool() {
+		opts.MaxPacketSizeBytes = int32(r.Range(1500, 9000))
+	}
+	env, err := newM3Env(1, opts, nil)
+	if err != nil {
+		c.Inconclusive("NewReporter: " + err.Error())
+		return
+	}
+	c.Eval(1)
+	interval := time.Duration(0)
+	if r.Bool() {
+		interval = time.Duration(r.Range(200, 3000)) * time.Microsecond
+	}
+	rootTags := map[string]string{}
+	if r.Bool() {
+		rootTags["dc"] = "x1"
+	}
+	prefix := r.Pick("", "app")
+	so := m3.DefaultSanitizerOpts
+	root, closer := tally.VerifNewRootScope(tally.ScopeOptions{CachedReporter: env.Rep, Prefix: prefix, Tags: rootTags, SanitizeOptions: &so, OmitCardinalityMetrics: r.Bool()}, interval, uint(r.Range(1, 4)))
+	nW := r.Range(1, 6)
+	iters := r.Range(50, 1500)
+	desc := map[string]interface{}{"mode": "scope", "protocol": protoName(proto), "queue": opts.MaxQueueSize, "max_packet": opts.MaxPacketSizeBytes, "interval_us": interval.Microseconds(), "workers": nW, "iterations": iters, "prefix": prefix}
+	c.LogCase(fmt.Sprint(desc))
+	type wstate struct {
+		ctrSum  map[string]int64
+		gLast   map[string]uint64
+		gAll    map[string]map[uint64]bool
+		timers  map[string]map[int64]int
+		hCounts map[string]map[int]int64
+	}
+	states := make([]*wstate, nW)
+	hspecV := []float64{-1, 0, 2.5, 10, 10, 100}
+	hspecD := []time.Duration{0, time.Millisecond, 10 * time.Millisecond, time.Second}
+	var wg sync.WaitGroup
+	var stop int32
+	for w := 0; w < nW; w++ {
+		st := &wstate{ctrSum: map[string]int64{}, gLast: map[string]uint64{}, gAll: map[string]map[uint64]bool{}, timers: map[string]map[int64]int{}, hCounts: map[string]map[int]int64{}}
+		states[w] = st
+		wg.Add(1)
+		wr := r.Fork(uint64(w + 1))
+		go func(w int) {
+			defer wg.Done()
+			c.Guard("panic-scope-m3", func() interface{} { return desc }, func() {
+				// every worker owns its identities (worker tag), so sums are exact per worker
+				wt := map[string]string{"w": strconv.Itoa(w)}
+				scopes := []tally.Scope{root.Tagged(wt), root.SubScope("sub").Tagged(wt), root.Tagged(wt).SubScope("deep").SubScope("er")}
+				names := []string{mon.RefName(prefix, ".", ""), mon.RefName(prefix, ".", "sub", ""), mon.RefName(prefix, ".", "deep", "er", "")}
+				for i := 0; i < iters; i++ {
+					k := wr.Intn(len(scopes))
+					s, base := scopes[k], names[k]
+					id := func(n string) string { return base + n + "|w" + strconv.Itoa(w) }
+					switch wr.Intn(5) {
+					case 0:
+						v := int64(wr.Range(0, 1000))
+						s.Counter("c").Inc(v)
+						st.ctrSum[id("c")] += v
+					case 1:
+						v := float64(uint64(w+1)<<32 | uint64(i))
+						s.Gauge("g").Update(v)
+						st.gLast[id("g")] = math.Float64bits(v)
+						if st.gAll[id("g")] == nil {
+							st.gAll[id("g")] = map[uint64]bool{}
+						}
+						st.gAll[id("g")][math.Float64bits(v)] = true
+					case 2:
+						d := time.Duration(int64(w+1)<<32 | int64(i))
+						s.Timer("t").Record(d)
+						if st.timers[id("t")] == nil {
+							st.timers[id("t")] = map[int64]int{}
+						}
+						st.timers[id("t")][int64(d)]++
+					case 3:
+						xs := []float64{-5, -1, 0, 1, 2.5, 3, 10, 50, 100, 1000}
+						x := xs[wr.Intn(len(xs))]
+						s.Histogram("hv", tally.ValueBuckets(hspecV)).RecordValue(x)
+						if st.hCounts[id("hv")] == nil {
+							st.hCounts[id("hv")] = map[int]int64{}
+						}
+						st.hCounts[id("hv")][mon.RefPairIndexV(hspecV, x)]++
+					default:
+						xs := []time.Duration{-1, 0, 1, time.Millisecond, 5 * time.Millisecond, time.Second, time.Minute}
+						x := xs[wr.Intn(len(xs))]
+						s.Histogram("hd", tally.DurationBuckets(hspecD)).RecordDuration(x)
+						if st.hCounts[id("hd")] == nil {
+							st.hCounts[id("hd")] = map[int]int64{}
+						}
+						st.hCounts[id("hd")][mon.RefPairIndexD(hspecD, x)]++
+					}
+					if wr.Chance(1, 50) {
+						runtime.Gosched()
+					}
+				}
+			})
+		}(w)
+	}
+	var wgP sync.WaitGroup
+	wgP.Add(1)
+	go func() {
+		defer wgP.Done()
+		for atomic.LoadInt32(&stop) == 0 {
+			tally.VerifReportPass(root)
+			time.Sleep(100 * time.Microsecond)
+		}
+	}()
+	wg.Wait()
+	atomic.StoreInt32(&stop, 1)
+	wgP.Wait()
+	if err := closer.Close(); err != nil {
+		c.Violation("close-error", map[string]interface{}{"why": err.Error(), "case": desc})
+	}
+	complete, why := env.finish()
+	if !complete {
+		c.Inconclusive(why)
+		return
+	}
+	bad := func(sig, whyS string) { c.Violation("scope/"+sig, map[string]interface{}{"why": whyS, "case": desc}) }
+	msgs, problems := decodeAll(proto, env.Sinks[0].Datagrams())
+	for _, p := range problems {
+		bad("malformed-datagram", p)
+	}
+	gotCtr := map[string]int64{}
+	gotGLast := map[string]uint64{}
+	gotGAll := map[string][]uint64{}
+	gotTimers := map[string]map[int64]int{}
+	gotH := map[string]map[int]int64{}
+	for _, m := range msgs {
+		for _, met := range m.Batch.Metrics {
+			if strings.HasPrefix(met.Name, "tally.internal") || strings.Contains(met.Name, "tally_internal") || strings.Contains(met.Name, "tally.internal") {
+				continue
+			}
+			w, bid := "", ""
+			for _, t := range met.Tags {
+				switch t.Name {
+				case "w":
+					w = t.Value
+				case "bucketid":
+					bid = t.Value
+				}
+			}
+			id := met.Name + "|w" + w
+			c.Event("metrics-decoded", 1)
+			if c.Verbose {
+				fmt.Println("DEC", id, met.Value.MetricType, bid)
+			}
+			switch met.Value.MetricType {
+			case m3thrift.MetricType_COUNTER:
+				if bid != "" {
+					n, _ := strconv.Atoi(bid)
+					if gotH[id] == nil {
+						gotH[id] = map[int]int64{}
+					}
+					gotH[id][n] += met.Value.Count
+				} else {
+					gotCtr[id] += met.Value.Count
+				}
+			case m3thrift.MetricType_GAUGE:
+				gotGLast[id] = math.Float64bits(met.Value.Gauge)
+				gotGAll[id] = append(gotGAll[id], math.Float64bits(met.Value.Gauge))
+			case m3thrift.MetricType_TIMER:
+				if gotTimers[id] == nil {
+					gotTimers[id] = map[int64]int{}
+				}
+				gotTimers[id][met.Value.Timer]++
+			}
+		}
+	}
+	for _, st := range states {
+		for id, sum := range st.ctrSum {
+			if gotCtr[id] != sum {
+				bad("counter-sum", fmt.Sprintf("%s: decoded counter values add up to %d, increments to %d", id, gotCtr[id], sum))
+			}
+		}
+		for id, last := range st.gLast {
+			if gotGLast[id] != last {
+				bad("gauge-last", fmt.Sprintf("%s: last emitted gauge bits %#x, last update %#x", id, gotGLast[id], last))
+			}
+			for _, b := range gotGAll[id] {
+				if !st.gAll[id][b] {
+					bad("gauge-invented", fmt.Sprintf("%s: emitted gauge bits %#x were never passed to Update", id, b))
+					break
+				}
+			}
+		}
+		for id, tm := range st.timers {
+			for v, n := range tm {
+				if gotTimers[id][v] != n {
+					bad("timer-multiset", fmt.Sprintf("%s: timer value %d recorded %d times, emitted %d times", id, v, n, gotTimers[id][v]))
+					break
+				}
+			}
+			for v, n := range gotTimers[id] {
+				if tm[v] != n {
+					bad("timer-multiset", fmt.Sprintf("%s: timer value %d emitted %d times, recorded %d times", id, v, n, tm[v]))
+					break
+				}
+			}
+		}
+		for id, hc := range st.hCounts {
+			for idx, n := range hc {
+				if gotH[id][idx] != n {
+					bad("histogram-bucket-sum", fmt.Sprintf("%s: bucket id %d: %d samples emitted, %d recorded (emitted per id: %v, recorded per index: %v)", id, idx, gotH[id][idx], n, gotH[id], hc))
+					break
+				}
+			}
+		}
+	}
+	c.Distinct(mon.Hash64(fmt.Sprint(desc), fmt.Sprint(r.U64())))
+	if c.WantSample() {
+		c.Sample(map[string]interface{}{"config": desc, "datagrams": len(msgs)})
 	}
 }
